@@ -404,4 +404,270 @@ theorem torusPathCore_ok (s d : V3) (w h : Int) (hw : 0 < w) (hh : 0 < h) (den k
       rw [Int.mul_sub, Int.mul_sub]; omega
     rw [this]; exact Int.mul_emod_right _ _
 
+/-! ### longest dimension first -/
+
+def segP (w h : Option Int) (l : Nat) (dv : P2) : Nat → P2 → List (Nat × P2)
+  | 0, _ => []
+  | n + 1, p => let q := stepTo w h p dv; (l, q) :: segP w h l dv n q
+
+theorem walkDim_eq (w h : Option Int) (l : Nat) (dv : P2) (n : Nat) (p : P2) :
+    walkDim w h dv (some l) n p = (segP w h l dv n p).map (fun e => (some e.1, e.2)) := by
+  induction n generalizing p with
+  | zero => rfl
+  | succ n ih => simp [walkDim, segP, ih]
+
+theorem segP_length (w h : Option Int) (l : Nat) (dv : P2) (n : Nat) (p : P2) :
+    (segP w h l dv n p).length = n := by
+  induction n generalizing p with
+  | zero => rfl
+  | succ n ih => simp [segP, ih]
+
+theorem lastPos_cons (p : P2) (e : Nat × P2) (rest : List (Nat × P2)) :
+    lastPos p (e :: rest) = lastPos e.2 rest := by
+  cases rest with
+  | nil => simp [lastPos]
+  | cons a t =>
+    rw [lastPos, lastPos, List.getLast?_cons_cons]
+    cases hh : (a :: t).getLast? with
+    | none => simp at hh
+    | some x => rfl
+
+theorem segP_walk (w h : Option Int) (l : Nat) (dv : P2) (hl : specVec l = some dv) (n : Nat) (p : P2)
+    (rest : List (Nat × P2)) :
+    walkOk w h p (segP w h l dv n p ++ rest) = walkOk w h (posAfter w h dv n p) rest ∧
+    lastPos p (segP w h l dv n p ++ rest) = lastPos (posAfter w h dv n p) rest := by
+  induction n generalizing p with
+  | zero => simp [segP, posAfter]
+  | succ n ih =>
+    obtain ⟨i1, i2⟩ := ih (stepTo w h p dv)
+    simp only [segP, posAfter, List.cons_append, walkOk, hl, lastPos_cons, i1, i2]
+    simp
+
+def modOf : Option Int → Int
+  | none => 0
+  | some m => m
+
+theorem wrap_cong (c : Int) (w : Option Int) : ∃ q, wrap c w = c + modOf w * q := by
+  cases w with
+  | none => exact ⟨0, by simp [wrap, modOf]⟩
+  | some m => exact ⟨-(c.fdiv m), by simp only [wrap, pyMod, modOf, Int.fmod_def, Int.mul_neg]; omega⟩
+
+theorem posAfter_cong (w h : Option Int) (dv : P2) (n : Nat) (p : P2) :
+    ∃ i j, posAfter w h dv n p = (p.1 + n * dv.1 + modOf w * i, p.2 + n * dv.2 + modOf h * j) := by
+  induction n generalizing p with
+  | zero => exact ⟨0, 0, by simp [posAfter]⟩
+  | succ n ih =>
+    obtain ⟨i, j, e⟩ := ih (stepTo w h p dv)
+    obtain ⟨q1, e1⟩ := wrap_cong (p.1 + dv.1) w
+    obtain ⟨q2, e2⟩ := wrap_cong (p.2 + dv.2) h
+    refine ⟨i + q1, j + q2, ?_⟩
+    rw [posAfter, e]
+    simp only [stepTo, e1, e2]
+    have : ((n + 1 : Nat) : Int) = (n : Int) + 1 := by omega
+    rw [this, Int.add_mul, Int.add_mul, Int.mul_add, Int.mul_add]
+    ext <;> simp <;> omega
+
+theorem congr_of (a b : Int) (w : Option Int) (i : Int) (h : a = b + modOf w * i) : congr? a b w = true := by
+  cases w with
+  | none => simp [congr?, modOf] at *; exact h
+  | some m =>
+    simp only [congr?, modOf] at *
+    have : a - b = m * i := by omega
+    rw [this, Int.mul_emod_right]; rfl
+
+/-- the link label the code looks up for one unit step of a dimension -/
+def labOf (dim : Nat) (mag : Int) : Nat :=
+  if dim = 0 then (if mag > 0 then 0 else 3)
+  else if dim = 1 then (if mag > 0 then 2 else 5)
+  else (if mag > 0 then 4 else 1)
+
+def dvOf (dim : Nat) (mag : Int) : P2 := unitOf dim (if mag > 0 then 1 else -1)
+
+theorem lab_ok (dim : Nat) (mag : Int) :
+    fromVector (dvOf dim mag).1 (dvOf dim mag).2 = some (labOf dim mag) ∧
+    specVec (labOf dim mag) = some (dvOf dim mag) := by
+  simp only [dvOf, labOf, unitOf]
+  repeat' split
+  all_goals decide
+
+def itemPath (w h : Option Int) (it : Nat × Int × Int) (p : P2) : List (Nat × P2) :=
+  segP w h (labOf it.1 it.2.1) (dvOf it.1 it.2.1) it.2.1.natAbs p
+
+def itemEnd (w h : Option Int) (it : Nat × Int × Int) (p : P2) : P2 :=
+  posAfter w h (dvOf it.1 it.2.1) it.2.1.natAbs p
+
+def some1 (e : Nat × P2) : Option Nat × P2 := (some e.1, e.2)
+
+theorem itemPath_zero (w h : Option Int) (it : Nat × Int × Int) (p : P2) (hz : it.2.1 = 0) :
+    itemPath w h it p = [] ∧ itemEnd w h it p = p := by
+  simp [itemPath, itemEnd, hz, segP, posAfter]
+
+/-- with zero magnitudes last, `break` loses nothing: the loop output is the three segments -/
+theorem ldfLoop3 (w h : Option Int) (a b c : Nat × Int × Int) (p : P2)
+    (hab : a.2.1 = 0 → b.2.1 = 0) (hbc : b.2.1 = 0 → c.2.1 = 0) :
+    ldfLoop w h [a, b, c] p =
+      (itemPath w h a p ++ itemPath w h b (itemEnd w h a p) ++
+        itemPath w h c (itemEnd w h b (itemEnd w h a p))).map some1 := by
+  obtain ⟨da, ma, ka⟩ := a
+  obtain ⟨db, mb, kb⟩ := b
+  obtain ⟨dc, mc, kc⟩ := c
+  simp only at hab hbc
+  have step : ∀ (d : Nat) (m : Int) (q : P2), m ≠ 0 →
+      walkDim w h (unitOf d (if m > 0 then 1 else -1))
+        (fromVector (unitOf d (if m > 0 then 1 else -1)).1 (unitOf d (if m > 0 then 1 else -1)).2) m.natAbs q
+        = (itemPath w h (d, m, 0) q).map some1 := by
+    intro d m q _
+    have := (lab_ok d m).1
+    simp only [dvOf] at this
+    rw [this, walkDim_eq]; rfl
+  by_cases ha : ma = 0
+  · have hb := hab ha
+    have hc := hbc hb
+    subst ha; subst hb; subst hc
+    simp [ldfLoop, itemPath, segP]
+  · by_cases hb : mb = 0
+    · have hc := hbc hb
+      subst hb; subst hc
+      simp only [ldfLoop, ha, if_false, if_true, List.append_nil, step da ma p ha]
+      simp [itemPath, segP]
+    · by_cases hc : mc = 0
+      · subst hc
+        simp only [ldfLoop, ha, hb, if_false, if_true, List.append_nil, step da ma p ha, step db mb _ hb]
+        simp [itemPath, segP, itemEnd, dvOf]
+      · simp only [ldfLoop, ha, hb, hc, if_false, List.append_nil, step da ma p ha, step db mb _ hb,
+          step dc mc _ hc]
+        simp [itemPath, itemEnd, dvOf]
+
+theorem zero_chain (ma mb : Int) (den ka kb : Nat) (hka : ka < den) (hkb : kb < den)
+    (hle : (mb.natAbs : Int) * den + kb ≤ (ma.natAbs : Int) * den + ka) : ma = 0 → mb = 0 := by
+  intro hz
+  subst hz
+  simp only [Int.natAbs_zero, Int.natCast_zero, Int.zero_mul, Int.zero_add] at hle
+  by_cases hb : mb = 0
+  · exact hb
+  · exfalso
+    have h1 : (1 : Int) * den ≤ (mb.natAbs : Int) * den :=
+      Int.mul_le_mul_of_nonneg_right (by omega) (by omega)
+    omega
+
+theorem dv_sum (dim : Nat) (m : Int) :
+    (m.natAbs : Int) * (dvOf dim m).1 = (if dim = 0 then m else if dim = 1 then 0 else -m) ∧
+    (m.natAbs : Int) * (dvOf dim m).2 = (if dim = 0 then 0 else if dim = 1 then m else -m) := by
+  simp only [dvOf, unitOf]
+  repeat' split
+  all_goals (constructor <;> simp <;> omega)
+
+theorem order_ok (v : V3) (den k0 k1 k2 : Nat) (h0 : k0 < den) (h1 : k1 < den) (h2 : k2 < den) :
+    ∃ a b c : Nat × Int × Int, ldfOrder v den k0 k1 k2 = [a, b, c] ∧
+      (a.2.1 = 0 → b.2.1 = 0) ∧ (b.2.1 = 0 → c.2.1 = 0) ∧
+      ((a.2.1.natAbs : Int) + b.2.1.natAbs + c.2.1.natAbs = absSum v) ∧
+      ((a.2.1.natAbs : Int) * (dvOf a.1 a.2.1).1 + (b.2.1.natAbs : Int) * (dvOf b.1 b.2.1).1 +
+        (c.2.1.natAbs : Int) * (dvOf c.1 c.2.1).1 = v.x - v.z) ∧
+      ((a.2.1.natAbs : Int) * (dvOf a.1 a.2.1).2 + (b.2.1.natAbs : Int) * (dvOf b.1 b.2.1).2 +
+        (c.2.1.natAbs : Int) * (dvOf c.1 c.2.1).2 = v.y - v.z) := by
+  have zc := fun ma mb ka kb hka hkb hle => zero_chain ma mb den ka kb hka hkb hle
+  simp only [ldfOrder, insertDesc]
+  split <;> simp only [insertDesc] <;> repeat' split
+  all_goals
+    refine ⟨_, _, _, rfl, ?_, ?_, ?_, ?_, ?_⟩
+    · dsimp only
+      first
+        | exact zc _ _ k0 k1 h0 h1 (by omega) | exact zc _ _ k0 k2 h0 h2 (by omega)
+        | exact zc _ _ k1 k0 h1 h0 (by omega) | exact zc _ _ k1 k2 h1 h2 (by omega)
+        | exact zc _ _ k2 k0 h2 h0 (by omega) | exact zc _ _ k2 k1 h2 h1 (by omega)
+    · dsimp only
+      first
+        | exact zc _ _ k0 k1 h0 h1 (by omega) | exact zc _ _ k0 k2 h0 h2 (by omega)
+        | exact zc _ _ k1 k0 h1 h0 (by omega) | exact zc _ _ k1 k2 h1 h2 (by omega)
+        | exact zc _ _ k2 k0 h2 h0 (by omega) | exact zc _ _ k2 k1 h2 h1 (by omega)
+    · simp only [absSum] <;> omega
+    · simp only [dv_sum] <;> simp <;> omega
+    · simp only [dv_sum] <;> simp <;> omega
+
+theorem mapM_some1 (path : List (Nat × P2)) :
+    (path.map some1).mapM (fun e : Option Nat × P2 =>
+      match e.1 with
+      | some l => (Except.ok (l, e.2) : Except Err (Nat × P2))
+      | none => .error .keyError) = .ok path := by
+  induction path with
+  | nil => rfl
+  | cons a t ih =>
+    simp only [List.map_cons, List.mapM_cons, some1, ih]
+    rfl
+
+theorem three_ok (w h : Option Int) (a b c : Nat × Int × Int) (p : P2) :
+    let path := itemPath w h a p ++ itemPath w h b (itemEnd w h a p) ++
+        itemPath w h c (itemEnd w h b (itemEnd w h a p))
+    walkOk w h p path = true ∧
+    (path.length : Int) = (a.2.1.natAbs : Int) + b.2.1.natAbs + c.2.1.natAbs ∧
+    ∃ i j, lastPos p path =
+      (p.1 + ((a.2.1.natAbs : Int) * (dvOf a.1 a.2.1).1 + (b.2.1.natAbs : Int) * (dvOf b.1 b.2.1).1 +
+        (c.2.1.natAbs : Int) * (dvOf c.1 c.2.1).1) + modOf w * i,
+       p.2 + ((a.2.1.natAbs : Int) * (dvOf a.1 a.2.1).2 + (b.2.1.natAbs : Int) * (dvOf b.1 b.2.1).2 +
+        (c.2.1.natAbs : Int) * (dvOf c.1 c.2.1).2) + modOf h * j) := by
+  intro path
+  have sa := fun rest => segP_walk w h _ _ (lab_ok a.1 a.2.1).2 a.2.1.natAbs p rest
+  have sb := fun rest => segP_walk w h _ _ (lab_ok b.1 b.2.1).2 b.2.1.natAbs (itemEnd w h a p) rest
+  have sc := fun rest => segP_walk w h _ _ (lab_ok c.1 c.2.1).2 c.2.1.natAbs (itemEnd w h b (itemEnd w h a p)) rest
+  have hpath : path = itemPath w h a p ++ (itemPath w h b (itemEnd w h a p) ++
+        (itemPath w h c (itemEnd w h b (itemEnd w h a p)) ++ [])) := by simp [path]
+  refine ⟨?_, ?_, ?_⟩
+  · rw [hpath]
+    simp only [itemPath, itemEnd] at *
+    rw [(sa _).1, (sb _).1, (sc _).1]; rfl
+  · simp only [path, List.length_append, itemPath, segP_length]; omega
+  · obtain ⟨i1, j1, e1⟩ := posAfter_cong w h (dvOf a.1 a.2.1) a.2.1.natAbs p
+    obtain ⟨i2, j2, e2⟩ := posAfter_cong w h (dvOf b.1 b.2.1) b.2.1.natAbs (itemEnd w h a p)
+    obtain ⟨i3, j3, e3⟩ := posAfter_cong w h (dvOf c.1 c.2.1) c.2.1.natAbs (itemEnd w h b (itemEnd w h a p))
+    refine ⟨i1 + i2 + i3, j1 + j2 + j3, ?_⟩
+    rw [hpath]
+    simp only [itemPath, itemEnd] at *
+    rw [(sa _).2, (sb _).2, (sc _).2]
+    simp only [lastPos, List.getLast?_nil]
+    rw [e3, e2, e1]
+    simp only [Int.mul_add]
+    ext <;> simp <;> omega
+
+theorem ldf_ok (v : V3) (start : P2) (w h : Option Int) (den k0 k1 k2 : Nat)
+    (h0 : k0 < den) (h1 : k1 < den) (h2 : k2 < den) :
+    ∃ path, ldf v start w h den k0 k1 k2 = .ok path ∧ ldfOk v start w h path = true := by
+  obtain ⟨a, b, c, ho, hab, hbc, hs, hx, hy⟩ := order_ok v den k0 k1 k2 h0 h1 h2
+  obtain ⟨hw, hl, i, j, he⟩ := three_ok w h a b c start
+  refine ⟨itemPath w h a start ++ itemPath w h b (itemEnd w h a start) ++
+        itemPath w h c (itemEnd w h b (itemEnd w h a start)), ?_, ?_⟩
+  · simp only [ldf, ldfRaw, ho, ldfLoop3 w h a b c start hab hbc]
+    exact mapM_some1 _
+  · simp only [ldfOk, hw, Bool.true_and, Bool.and_eq_true, beq_iff_eq]
+    refine ⟨⟨by rw [hl, hs], ?_⟩, ?_⟩
+    · apply congr_of _ _ w i; rw [he, hx]; simp; omega
+    · apply congr_of _ _ h j; rw [he, hy]; simp; omega
+
+
+theorem specVec_mem {l : Nat} {d : P2} (h : specVec l = some d) : d ∈ hexSteps := by
+  match l, h with
+  | 0, h | 1, h | 2, h | 3, h | 4, h | 5, h => simp [specVec] at h; subst h; decide
+  | (n + 6), h => simp [specVec] at h
+
+theorem reach_cons {w h : Option Int} {n : Nat} {p q b : P2} {d : P2} (hd : d ∈ hexSteps)
+    (hq : q = stepTo w h p d) (r : Reach w h n q b) : Reach w h (n + 1) p b := by
+  induction r with
+  | refl a => subst hq; exact Reach.step d (Reach.refl p) hd
+  | step d' hr hd' ih => exact Reach.step d' (ih hq) hd'
+
+/-- a labelled walk accepted by `walkOk` is a walk of the graph -/
+theorem walkOk_reach (w h : Option Int) (p : P2) (path : List (Nat × P2)) (hok : walkOk w h p path = true) :
+    Reach w h path.length p (lastPos p path) := by
+  induction path generalizing p with
+  | nil => exact Reach.refl p
+  | cons e rest ih =>
+    obtain ⟨l, q⟩ := e
+    simp only [walkOk, Bool.and_eq_true] at hok
+    obtain ⟨h1, h2⟩ := hok
+    rw [lastPos_cons]
+    cases hs : specVec l with
+    | none => simp [hs] at h1
+    | some d =>
+      simp only [hs, beq_iff_eq] at h1
+      exact reach_cons (specVec_mem hs) h1.symm (ih q h2)
+
 end Rig.C11
